@@ -72,10 +72,10 @@ func c01Lexical(n int, nlp bool) {
 	}
 }
 
-func VerifHarness_C01_Lexical3()  { c01Lexical(3, false) }
-func VerifHarness_C01_Lexical5()  { c01Lexical(5, false) }
-func VerifHarness_C01_NLP3()      { c01Lexical(3, true) }
-func VerifHarness_C01_NLP5()      { c01Lexical(5, true) }
+func VerifHarness_C01_Lexical3() { c01Lexical(3, false) }
+func VerifHarness_C01_Lexical5() { c01Lexical(5, false) }
+func VerifHarness_C01_NLP3()     { c01Lexical(3, true) }
+func VerifHarness_C01_NLP5()     { c01Lexical(5, true) }
 
 // Search(query, limit) convenience entry point
 func VerifHarness_C01_SearchEntry() {
